@@ -87,7 +87,28 @@ func corrupt(t *tape.Tape, img []byte, n int) ([]byte, []string) {
 	var kinds []string
 	for i := 0; i < n && len(out) > 0; i++ {
 		l := fmt.Sprintf("c%d", i)
-		switch t.Weighted(l+".kind", 3, 2, 2, 2, 2, 2, 6, 5, 2, 3, 3, 3, 2, 3) {
+		switch t.Weighted(l+".kind", 3, 2, 2, 2, 2, 2, 6, 5, 2, 3, 3, 3, 2, 3, 3) {
+		case 14: // token-level damage to an indirect reference "N G R"
+			ms := refTokenPat.FindAllSubmatchIndex(out, -1)
+			if len(ms) == 0 {
+				continue
+			}
+			m := ms[posIn(t, l+".m", len(ms))]
+			var repl string
+			switch t.Draw(l+".edit", 5) {
+			case 0: // object number lost
+				repl = string(out[m[4]:m[5]]) + " R"
+			case 1: // generation lost
+				repl = string(out[m[2]:m[3]]) + " R"
+			case 2: // keyword doubled
+				repl = string(out[m[0]:m[1]]) + " R"
+			case 3: // keyword lost
+				repl = string(out[m[2]:m[3]]) + " " + string(out[m[4]:m[5]])
+			default: // a second, incomplete reference behind it
+				repl = string(out[m[0]:m[1]]) + " 0 R"
+			}
+			out = append(out[:m[0]:m[0]], append([]byte(repl), out[m[1]:]...)...)
+			kinds = append(kinds, "reference-token edit")
 		case 0:
 			p := posIn(t, l+".pos", len(out))
 			out[p] ^= 1 << t.Draw(l+".bit", 8)
@@ -481,6 +502,8 @@ func Walk(e *core.Env, img []byte, mode pdf.ReaderErrorHandling, password string
 		e.Fail("allocation", nil, "TotalAlloc grew by %d MiB for a %d byte image (%d bytes drained, %d streams); bound %d MiB", alloc>>20, len(img), st.drained, st.streams, bound>>20)
 	}
 }
+
+var refTokenPat = regexp.MustCompile(`([0-9]{1,7}) ([0-9]{1,5}) R\b`)
 
 var objPat = regexp.MustCompile(`([0-9]{1,8})[ \t]+([0-9]{1,5})[ \t]+obj`)
 
